@@ -94,6 +94,8 @@ class Interp:
         if isinstance(v, SObj):
             names = sorted(v.attrs)
             return V.VObj(z3.IntVal(self.program.class_id(v.cls)), V.mk_seq([self.to_z(v.attrs[n]) for n in names]))
+        if isinstance(v, UnknownMethod):
+            return z3.Function(f"Field_{v.name.strip('<>')}", V.Val, V.Val)(v.recv.t)     # used as a value: a property / attribute
         if isinstance(v, (BoundMethod, Closure, BuiltinMethod)):
             return V.VOpaque(z3.IntVal(id(type(v)) % 100000))
         raise Unsupported(f"to_z: {type(v).__name__}")
@@ -159,6 +161,8 @@ class Interp:
                     return self.z_truth(r) if not isinstance(r, ZInt) else r.i != 0
             return True
         if isinstance(v, Z):
+            if getattr(self, "frame_only", False):
+                return V.U_truth(v.t)        # frame-only: values are abstract, only consistency of repeated tests matters
             return V.truth(v.t)
         raise Unsupported(f"truth of {v!r}")
 
@@ -167,6 +171,10 @@ class Interp:
 
     def guard(self, errs):
         """errs: [(kind, z3 Bool cond)]; forks into 'no error' and one path per possible error."""
+        if getattr(self, "frame_only", False) and not self.try_depth():
+            # frame-only, no enclosing handler: a raising path performs a prefix of the stores of the normal path,
+            # so only the normal path is followed (obligations already emitted keep their own path condition)
+            return
         errs = [(k, z3.simplify(c)) for k, c in errs]
         errs = [(k, c) for k, c in errs if not z3.is_false(c)]
         if not errs:
@@ -175,6 +183,9 @@ class Interp:
         i = self.path.choose([none] + [c for _, c in errs])
         if i > 0:
             raise PyRaise(errs[i - 1][0], msg="(symbolic operand)")
+
+    def try_depth(self):
+        return self.__dict__.get("_try_depth", [0])[0]
 
     def is_concrete_scalar(self, v):
         return isinstance(v, C) and isinstance(v.v, CONCRETE_SCALARS)
@@ -346,6 +357,11 @@ class Interp:
             if x is not None and y is not None:
                 return ZBool({"Lt": x < y, "LtE": x <= y, "Gt": x > y, "GtE": x >= y}[opn])
         za, zb = self.to_z(a), self.to_z(b)
+        if getattr(self, "frame_only", False):
+            U = z3.Function("U_cmp_" + opn, V.Val, V.Val, V.B)
+            E = z3.Function("U_cmp_err", V.Val, V.Val, V.B)
+            self.guard([("TypeError", E(za, zb))])
+            return ZBool(U(za, zb))
         if opn == "Lt":
             val, err = V.lt_parts(za, zb)
         elif opn == "LtE":
@@ -424,6 +440,8 @@ class Interp:
                 return z3.And(acc) if acc else True
         if isinstance(a, (BoundMethod, Closure)) or isinstance(b, (BoundMethod, Closure)):
             return a is b
+        if getattr(self, "frame_only", False):
+            return V.U_eq(self.to_z(a), self.to_z(b))
         return V.eq_b(self.to_z(a), self.to_z(b))
 
     def contains(self, c, x):
@@ -470,6 +488,11 @@ class Interp:
         if isinstance(c, LSet):
             self.guard([("TypeError", z3.Not(V.hashable(self.to_z(x))))])
             return V.seq_has(c.seq, self.to_z(x))
+        if getattr(self, "frame_only", False):
+            U = z3.Function("U_in", V.Val, V.Val, V.B)
+            E = z3.Function("U_in_err", V.Val, V.Val, V.B)
+            self.guard([("TypeError", E(self.to_z(c), self.to_z(x)))])
+            return U(self.to_z(c), self.to_z(x))
         val, err = V.contains_parts(self.to_z(c), self.to_z(x))
         self.guard([("TypeError", err)])
         return val
@@ -503,6 +526,13 @@ class Interp:
             f = self.class_lookup(b.cls, "__r" + dunder[2:])
             if f is not None:
                 return self.call_function(f, [b, a], {})
+        if dunder and getattr(self, "opaque_objects", False) and (isinstance(a, Z) or isinstance(b, Z)) and dunder in (
+                "__and__", "__or__", "__xor__", "__truediv__"):
+            methods, _ = self.program_names()
+            cands = methods.get(dunder, []) + methods.get("__r" + dunder[2:], [])
+            za = a if isinstance(a, Z) else b
+            if cands and self.path.branch(z3.Or(V.is_obj(self.to_z(a)), V.is_obj(self.to_z(b)))):
+                return self.call_unknown_method(UnknownMethod(dunder, za, cands), [b if za is a else a], {})
         if opn == "Add":
             if isinstance(a, (LList, ZSeq)) and isinstance(b, (LList, ZSeq)):
                 if isinstance(a, LList) and isinstance(b, LList) and a.concrete and b.concrete:
@@ -568,6 +598,8 @@ class Interp:
             self.assumptions_used.add("bitwise &,|,^ on symbolic operands modelled for bools only")
             x, y = V.Val.b(za), V.Val.b(zb)
             return ZBool({"BitAnd": z3.And(x, y), "BitOr": z3.Or(x, y), "BitXor": z3.Xor(x, y)}[opn])
+        if getattr(self, "frame_only", False):
+            return Z(V.fresh(f"binop_{opn}"))
         raise Unsupported(f"binop {opn} on {type(a).__name__}, {type(b).__name__}")
 
     SetFilter = {}
@@ -674,6 +706,19 @@ class Interp:
             self.guard([("IndexError", z3.Or(j < 0, j >= n))])
             return Z(seq[j])
         zo, zk = self.to_z(obj), self.to_z(key)
+        from .builtins_model import FreshZ
+        if isinstance(obj, FreshZ) and obj.deep:
+            r = self._get_item_sym(zo, zk)
+            return FreshZ(r.t, None, True)
+        return self._get_item_sym(zo, zk)
+
+    def _get_item_sym(self, zo, zk):
+        if getattr(self, "frame_only", False):
+            # frame-only: an unknown element of an unknown container
+            E = z3.Function("U_getitem_err", V.Val, V.Val, V.I)
+            from .comp import KIND_CODE
+            self.guard([(k, E(zo, zk) == KIND_CODE[k]) for k in ("KeyError", "IndexError", "TypeError")])
+            return Z(z3.Function("U_getitem", V.Val, V.Val, V.Val)(zo, zk))
         # symbolic container: fork on kind
         kind = self.path.choose([V.is_dict(zo), V.is_seq(zo), V.is_str(zo),
                                  z3.Not(z3.Or(V.is_dict(zo), V.is_seq(zo), V.is_str(zo)))])
@@ -733,6 +778,8 @@ class Interp:
         from .builtins_model import SymZip, SymEnumerate
         items = self.try_iter_concrete(it) if not isinstance(it, (Z, SymZip, SymEnumerate)) else None
         if items is None:
+            if getattr(self, "frame_only", False):
+                return self.frame_comprehension(node, gi, it, fr, kind)
             if gi == 0 and len(gens) == 1 and kind == "list":
                 from .comp import build_comprehension
                 return build_comprehension(self, node, g, it, fr)
@@ -744,6 +791,37 @@ class Interp:
                 if r is not None:
                     return r
         return None
+
+    def frame_comprehension(self, node, gi, it, fr, kind):
+        """Frame-only verification of a comprehension over a symbolic iterable: the element expression is executed for
+        one arbitrary element (its stores are frame obligations like any other); the result is a fresh container of
+        unknown contents."""
+        from .comp import explore_body
+        from .loops import iter_elements
+        from .builtins_model import FreshZ
+        g = node.generators[gi]
+        r = iter_elements(self, it)
+        seq, elem = r[0], r[1]
+        k = V.fresh("ck", V.I)
+
+        def body(sub):
+            f2 = Frame(fr.func, dict(fr.env), fr.fn_globals, fr.cls_ctx, fr.name)
+            sub.assign_target(g.target, elem(k), f2)
+            for c in g.ifs:
+                if not sub.truth(sub.eval(c, f2)):
+                    return C(None)
+            res = []
+            sub._comp_rec(node, gi + 1, f2, kind, res)
+            return C(None)
+        outcomes = explore_body(self, body)
+        kinds = sorted({k2 for _, (tag, k2) in outcomes if tag == "raise"})
+        if kinds and self.try_depth():
+            i = self.path.choose([True] * (len(kinds) + 1), structural=True)
+            if i > 0:
+                raise PyRaise(kinds[i - 1], msg="(element of a comprehension)")
+        if kind == "dict":
+            return FreshZ(V.VDict(V.fresh("dc_k", V.VS), V.fresh("dc_v", V.VS)), None, False)
+        return LList(None, V.fresh("lc", V.VS), fresh=True)
 
     def symbolic_comprehension(self, node, g, it, fr):
         """[elt for target in xs if conds] over a symbolic sequence xs: a fresh result sequence defined
@@ -758,6 +836,8 @@ class Interp:
     # =========================================================================================== iteration
     def try_iter_concrete(self, v):
         """Python list of executor values if the iteration spine is concrete, else None."""
+        if isinstance(v, UnknownMethod):
+            return None
         if isinstance(v, LList):
             return list(v.items) if v.concrete else None
         if isinstance(v, LTuple):
@@ -799,8 +879,16 @@ class Interp:
 
     def iter_seq(self, v):
         """z3 Seq(Val) of the items produced by iterating v (symbolic iteration)."""
+        if isinstance(v, UnknownMethod):
+            v = Z(self.to_z(v))
+        if isinstance(v, (BuiltinMethod, BoundMethod, Closure)):
+            raise PyRaise("TypeError", msg="method object is not iterable")
         if isinstance(v, (LList, LTuple, ZSeq)):
             return self.seq_of(v)
+        if isinstance(v, Z) and getattr(self, "frame_only", False):
+            # frame-only: the items of an unknown iterable are an unknown sequence (no case split on its kind)
+            self.guard([("TypeError", z3.Function("U_iter_err", V.Val, V.B)(v.t))])
+            return z3.Function("U_iter", V.Val, V.VS)(v.t)
         if isinstance(v, Z):
             zo = v.t
             k = self.path.choose([V.is_list(zo), V.is_tuple(zo), V.is_dict(zo), V.is_range(zo),
@@ -851,6 +939,12 @@ class Interp:
                 raise PyRaise("AttributeError", msg=f"{obj.cls.__name__}.{name}")
             return self.bind_class_attr(raw, obj, obj.cls)
         if isinstance(obj, SuperProxy):
+            if isinstance(obj.obj, Z):
+                # receiver of unknown (sub)class: resolve through the MRO of the class that defines the calling method
+                for k in obj.cls.__mro__[1:]:
+                    if name in k.__dict__ and k is not object:
+                        return self.bind_class_attr(k.__dict__[name], obj.obj, obj.cls, via=k)
+                return C(("object", name))
             mro = obj.obj.cls.__mro__ if isinstance(obj.obj, SObj) else obj.obj.v.__mro__
             start = list(mro).index(obj.cls) + 1
             for k in mro[start:]:
@@ -878,6 +972,8 @@ class Interp:
         if isinstance(obj, (Z, LList, LDict, LTuple, LSet, ZSeq, ZBool, ZInt)):
             if isinstance(obj, Z) and obj.cls is not None:
                 return self.zobj_attr(obj, name)
+            if isinstance(obj, Z) and getattr(self, "opaque_objects", False):
+                return self.opaque_attr(obj, name)
             return BuiltinMethod(name, obj)
         if isinstance(obj, BoundMethod):
             if name == "__name__":
@@ -888,7 +984,111 @@ class Interp:
                 return obj.self_val
         if isinstance(obj, ExcVal) and name == "args":
             return LTuple(list(obj.args))
+        if getattr(self, "frame_only", False):
+            return Z(V.fresh(f"attr_{name}"))
         raise Unsupported(f"attribute {name} of {type(obj).__name__}")
+
+    # ---- opaque objects (frame-only verification): receivers of unknown class
+    def program_names(self):
+        """(method names, data attribute / property names) over all classes of the program."""
+        cache = self.program.__dict__.setdefault("_names", None)
+        if cache is None:
+            methods, attrs = {}, set()
+            for cls in self.program.class_ids:
+                for n, v in cls.__dict__.items():
+                    f = v.__func__ if isinstance(v, (classmethod, staticmethod)) else v
+                    if inspect.isfunction(f) and f.__code__.co_filename not in self.program.sources:
+                        continue
+                    if inspect.isfunction(f) and not (n.startswith("__") and n not in ("__len__", "__getitem__", "__iter__", "__call__", "__eq__")):
+                        methods.setdefault(n, []).append((cls, f))
+                    elif isinstance(v, property) or type(v).__name__ == "classproperty":
+                        attrs.add(n)
+                    elif not n.startswith("__") and not inspect.isfunction(f):
+                        attrs.add(n)
+                attrs |= set(self.instance_attrs(cls))
+            cache = self.program.__dict__["_names"] = (methods, attrs)
+        return cache
+
+    def class_constants(self, name):
+        """Distinct values of a class-level constant attribute over the program's classes (None if `name` is ever an
+        instance attribute, property or method)."""
+        cache = self.program.__dict__.setdefault("_class_consts", {})
+        if name not in cache:
+            vals, ok = [], True
+            for cls in self.program.class_ids:
+                if name in self.instance_attrs(cls):
+                    ok = False
+                if name in cls.__dict__:
+                    v = cls.__dict__[name]
+                    if isinstance(v, (property, classmethod, staticmethod)) or inspect.isfunction(v) or type(v).__name__ == "classproperty":
+                        ok = False
+                    elif not any(v is w for w in vals):
+                        vals.append(v)
+            cache[name] = vals if ok and vals and len(vals) <= 8 else None
+        return cache[name]
+
+    def opaque_attr(self, obj, name):
+        """Attribute of a value that may be an object of any program class or a JSON-like value."""
+        methods, attrs = self.program_names()
+        DICT_LIKE = ("keys", "values", "items", "get", "pop", "copy", "update", "setdefault", "lower", "upper", "strip",
+                     "split", "startswith", "endswith", "replace", "format", "join", "append", "extend", "insert", "remove",
+                     "clear", "sort", "reverse", "index", "count", "title")
+        is_o = V.is_obj(obj.t)
+        if name == "__class__":
+            return Z(z3.Function("Field___class__", V.Val, V.Val)(obj.t))
+        if name in methods or name in attrs:
+            if name in DICT_LIKE:
+                if not self.path.branch(is_o):
+                    return BuiltinMethod(name, obj)
+            else:
+                self.guard([("AttributeError", z3.Not(is_o))])
+            if name in methods:
+                return UnknownMethod(name, obj, methods[name])
+            consts = self.class_constants(name)
+            if consts is not None:
+                memo = self.path.__dict__.setdefault("_const_choice", {})
+                from .comp import tid
+                key = (tid(obj.t), name)
+                if key not in memo:
+                    memo[key] = self.path.choose([True] * len(consts), structural=True)
+                return self.wrap(consts[memo[key]])
+            f = z3.Function(f"Field_{name}", V.Val, V.Val)
+            if ("zattr", obj.t.get_id(), name) in self.modifies_ok:     # (the parameter terms are alive for the whole run)
+                from .builtins_model import FreshZ
+                return FreshZ(f(obj.t), None, False)
+            return Z(f(obj.t))
+        return BuiltinMethod(name, obj)
+
+    def call_unknown_method(self, um, args, kwargs):
+        """obj.m(...) on a receiver of unknown class: sound only w.r.t. the *union* of the contracts of every program
+        method named m, each of which must exist (and is proved separately).  Effects = union of their `modifies`."""
+        from .contract_apply import check_modifies_args
+        from .builtins_model import FreshZ
+        result_fresh = True
+        for cls, f in um.candidates:
+            qn = f"{f.__module__}:{f.__qualname__}"
+            con = self.contracts.get(qn + "#frame") or self.contracts.get(qn)
+            if con is None and (f.__code__.co_flags & 0x20 or f.__name__ == "__repr__"):
+                continue            # the trivial generators (__iter__) and __repr__ store nothing
+            if con is None:
+                raise Unsupported(f"call of .{um.name}() on an object of unknown class: {qn} has no contract")
+            result_fresh = result_fresh and bool(con.fresh_result)
+            node = self.program.node_of(f)
+            check_modifies_args(self, con, node, [um.recv] + list(args), kwargs, qn)
+            self.contract_calls.add(con.qualname)
+        self.assumptions_used.add(f"call of .{um.name}() on an object of unknown class: effects bounded by the contracts of all "
+                                  f"{len(um.candidates)} program methods of that name")
+        facts = [self.contracts.get(f"{f.__module__}:{f.__qualname__}#frame") for _, f in um.candidates]
+        if len(facts) == 1 and facts[0] is not None and facts[0].ensures is not None:
+            from .contract_apply import clause_bool
+            res = FreshZ(V.fresh(f"res_{um.name}"), None, True) if result_fresh else Z(V.fresh(f"res_{um.name}"))
+            self.path.assume(clause_bool(self, facts[0].ensures, {"result": res}, "result fact", mode="assume"))
+            self.assumptions_used.add(f"assumed fact about the result of .{um.name}(): {facts[0].note or 'see contracts/frames.py RESULT_FACTS'}")
+            return res
+        if result_fresh:
+            from .builtins_model import FreshZ
+            return FreshZ(V.fresh(f"res_{um.name}"), None, True)
+        return Z(V.fresh(f"res_{um.name}"))
 
     def bind_class_attr(self, raw, inst, cls, via=None):
         if raw is _NONE_ATTR:
@@ -989,6 +1189,8 @@ class Interp:
             return self.call_function(f.func, [f.self_val] + args, kwargs, via_cls=f.via_cls)
         if isinstance(f, Closure):
             return self.call_closure(f, args, kwargs)
+        if isinstance(f, UnknownMethod):
+            return self.call_unknown_method(f, args, kwargs)
         if isinstance(f, BuiltinMethod):
             return call_builtin_method(self, f, args, kwargs)
         if isinstance(f, C):
@@ -999,6 +1201,9 @@ class Interp:
             if isinstance(x, tuple) and len(x) == 2 and x[0] == "object":
                 # object.__init__ / object.__new__ reached through super()
                 if x[1] == "__new__":
+                    if not isinstance(args[0], C):
+                        from .builtins_model import FreshZ
+                        return FreshZ(V.fresh("newobj"), None, True)
                     cls = args[0].v
                     return SObj(cls)
                 return C(None)
@@ -1014,12 +1219,31 @@ class Interp:
             if cf is None:
                 raise PyRaise("TypeError", msg="object is not callable")
             return self.call_function(cf, [f] + args, kwargs)
+        if isinstance(f, Z) and getattr(self, "frame_only", False) and not z3.is_app_of(f.t, z3.Z3_OP_DT_CONSTRUCTOR):
+            self.assumptions_used.add("call of a value of unknown kind (class object / callable): result unknown, no effect on "
+                                      "pre-existing program objects")
+            return Z(V.fresh("callres"))
         if isinstance(f, Z):
             from .builtins_model import call_symbolic_function
             return call_symbolic_function(self, f, args, kwargs)
         raise Unsupported(f"call of {f!r}")
 
     def call_closure(self, f, args, kwargs):
+        node = f.node
+        active = self.__dict__.setdefault("_active_closures", [])
+        if active.count(id(node)) >= 2:
+            if getattr(self, "frame_only", False):
+                self.assumptions_used.add(f"recursive local function {f.name}: recursion cut after two levels (frame-only: the "
+                                          "deeper calls perform the same stores)")
+                return Z(V.fresh(f"rec_{f.name}"))
+            raise Unsupported(f"recursive local function {f.name} without a contract")
+        active.append(id(node))
+        try:
+            return self._call_closure(f, args, kwargs)
+        finally:
+            active.pop()
+
+    def _call_closure(self, f, args, kwargs):
         node = f.node
         env = dict(f.env)
         self.bind_params(node.args, args, kwargs, env, f.name)
@@ -1042,10 +1266,22 @@ class Interp:
         if any(isinstance(x, StarArgs) for x in args):
             # a symbolic *tuple is accepted only as the tail that lands entirely in the callee's own *args
             i = next(i for i, x in enumerate(args) if isinstance(x, StarArgs))
-            if i < n or a.vararg is None or any(isinstance(x, StarArgs) for x in args[i + 1:]):
+            if (i < n or a.vararg is None) and len(args) == i + 1 and not kwargs:
+                # the symbolic tuple supplies the remaining named parameters: its length must match exactly
+                star = args[i].v
+                sseq = self.seq_of(star) if not isinstance(star, Z) else V.seq_items(star.t)
+                need = n - i
+                lo = need - len(defaults) if a.vararg is None else need
+                if a.vararg is None and not defaults:
+                    self.guard([("TypeError", z3.Length(sseq) != need)])
+                    args = args[:i] + [Z(sseq[j]) for j in range(need)]
+                else:
+                    raise Unsupported(f"call of {fname} with a symbolic * argument feeding named parameters")
+            elif i < n or a.vararg is None:
                 raise Unsupported(f"call of {fname} with a symbolic * argument feeding named parameters")
-            sym_star = (args[n:i], args[i].v, args[i + 1:])
-            args = args[:n]
+            if any(isinstance(x, StarArgs) for x in args):
+                sym_star = args[n:]
+                args = args[:n]
         sym_kw = kwargs.pop("**", None)
         if sym_kw is not None and (a.kwarg is None or any(k not in pos for k in kwargs)):
             raise Unsupported(f"call of {fname} with a symbolic ** argument feeding named parameters")
@@ -1066,10 +1302,12 @@ class Interp:
                     raise PyRaise("TypeError", msg=f"{fname}() missing required positional argument {p!r}")
         if a.vararg is not None:
             if sym_star is not None:
-                pre, mid, post = sym_star
-                mid_seq = self.seq_of(mid) if not isinstance(mid, Z) else V.seq_items(mid.t)
-                parts = ([V.mk_seq([self.to_z(x) for x in pre])] if pre else []) + [mid_seq] + (
-                    [V.mk_seq([self.to_z(x) for x in post])] if post else [])
+                parts = []
+                for x in sym_star:
+                    if isinstance(x, StarArgs):
+                        parts.append(self.seq_of(x.v) if not isinstance(x.v, Z) else V.seq_items(x.v.t))
+                    else:
+                        parts.append(z3.Unit(self.to_z(x)))
                 env[a.vararg.arg] = ZSeq(z3.Concat(*parts) if len(parts) > 1 else parts[0], "tuple")
             else:
                 env[a.vararg.arg] = LTuple(args[n:])
@@ -1099,6 +1337,8 @@ class Interp:
             return call_builtin(self, f, args, kwargs)
         qn = f"{f.__module__}:{f.__qualname__}"
         con = self.contracts.get(qn)
+        if getattr(self, "frame_only", False):
+            con = self.contracts.get(qn + "#frame") or con
         if con is not None and qn != (self.verifying or "").split("#")[0] and not force_inline and not con.inline:
             from .contract_apply import apply_contract
             self.contract_calls.add(qn)
@@ -1149,6 +1389,13 @@ class Interp:
             pass
         # object construction protocol (DESIGN §2.9): __new__, then __init__ iff the result is an instance of cls
         new = self.class_lookup(cls, "__new__")
+        if new is not None and getattr(self, "frame_only", False):
+            # construction protocol of classes with their own __new__ (the binary operators) is verified functionally
+            # (contracts/binops.py); frame-only verification uses its result: no pre-existing object is modified
+            self.assumptions_used.add(f"construction of {cls.__name__}: modifies nothing (proved by the constructor contracts, C02)")
+            for a in args:
+                pass
+            return Z(V.fresh(f"new_{cls.__name__}"))
         if new is not None:
             newf = new.__func__ if isinstance(new, staticmethod) else new
             obj = self.call_function(newf, [C(cls)] + args, kwargs)
@@ -1284,7 +1531,10 @@ class Interp:
             self.frame_violation(f"store to attribute {name!r} of module/class/global object {getattr(obj.v, '__name__', obj.v)!r}")
             return
         if isinstance(obj, Z):
-            self.frame_violation(f"store to attribute {name!r} of a pre-existing object value")
+            from .builtins_model import FreshZ
+            if isinstance(obj, FreshZ) or id(obj) in self.modifies_ok and ("zattr", obj.t.get_id(), name) in self.modifies_ok:
+                return
+            self.frame_violation(f"store to attribute {name!r} of an object that existed before this call")
             return
         raise Unsupported(f"set_attr on {obj!r}")
 
@@ -1360,9 +1610,14 @@ class Interp:
         raise Unsupported(f"raise of {e!r}")
 
     def s_Try(self, node, fr):
+        td = self.__dict__.setdefault("_try_depth", [0])
         try:
             try:
-                self.exec_block(node.body, fr)
+                td[0] += 1
+                try:
+                    self.exec_block(node.body, fr)
+                finally:
+                    td[0] -= 1
             except PyRaise as ex:
                 for h in node.handlers:
                     if self.handler_matches(h, ex, fr):
@@ -1452,6 +1707,11 @@ class Interp:
 class StarArgs:
     def __init__(self, v):
         self.v = v
+
+
+class UnknownMethod:
+    def __init__(self, name, recv, candidates):
+        self.name, self.recv, self.candidates = name, recv, candidates
 
 
 class ConcreteIter:
